@@ -58,7 +58,7 @@ def wkind(tb, w):
     return f"{k}/{cov}/{onrow}"
 
 
-def direct(module, test, kwargs, tb, mask, sid):
+def direct(module, test, kwargs, tb, mask, sid, masked_input=False):
     """What the statement says the result is: the real function called on the window rows."""
     real = P.REAL.get((module, test))
     if real is None:
@@ -66,7 +66,10 @@ def direct(module, test, kwargs, tb, mask, sid):
 
         real = getattr(importlib.import_module(f"ioos_qc.{module}"), test)
         real = getattr(real, "__wrapped__", real)
-    avail = {"inp": tb.data[sid][mask]}
+    data = tb.data[sid]
+    if masked_input:
+        data = np.ma.MaskedArray(data, mask=[(i % 3 == 1) for i in range(len(data))])
+    avail = {"inp": data[mask]}
     if tb.with_time:
         avail["tinp"] = tb.time[mask]
     if tb.with_z:
@@ -147,7 +150,7 @@ def judge_run(ctx, fe, opts, tb, contexts, res, err, witness_base):
             src_sid = sid if fe != "numpy-array" else tb.streams[0]
             for module, test, kwargs in tests:
                 ctx.count("c05.results_judged")
-                exp_flags = direct(module, test, kwargs, tb, mask, src_sid)
+                exp_flags = direct(module, test, kwargs, tb, mask, src_sid, masked_input=bool(opts.get("masked_input")))
                 exp_recv = expected_received(tb, mask, src_sid)
                 # 1. the ContextResult
                 cand = [i for i, r in enumerate(res) if i not in used and r.stream_id == sid and (
@@ -183,8 +186,7 @@ def judge_run(ctx, fe, opts, tb, contexts, res, err, witness_base):
                                   {**witness_base, "context": ci, "stream": sid, "test": test, "window": c["window"],
                                    "kwargs": core.jsonable(kwargs), "expected_flags(direct call on window rows)": exp_flags,
                                    "observed_flags": fl})
-                if r.results and np.ma.getmaskarray(r.results[0].results).any():
-                    ctx.violation(f"C05:{label}:flags-masked:{test}", {**witness_base, "test": test})
+                # (whether a test may hide flags behind a mask is C01's clause, not C05's)
                 # 2. what the test function received (probe / spy log)
                 if test == "vf_probe_test":
                     evs = [e for e in events if e["ev"] == "probe" and e["tag"] == kwargs.get("tag", 0)
@@ -244,12 +246,12 @@ def fe_variants(ctx, tb, single_stream):
            ("pandas", {"index": "string"}), ("pandas", {"index": "datetime"}), ("pandas", {"index": "reversed"}),
            ("pandas", {"index": "duplicated"}), ("pandas", {"index": "constant"}),
            ("pandas", {"names": {"time": "when", "z": "depth", "lat": "y", "lon": "x"}}),
-           ("numpy-dict", {}), ("numpy-dict", {"time_carrier": "epoch"}),
+           ("numpy-dict", {}), ("numpy-dict", {"time_carrier": "epoch"}), ("numpy-dict", {"masked_input": True}),
            ("xarray-ds", {}), ("xarray-file", {}), ("netcdf-ds", {}), ("netcdf-file", {})]
     if tb.with_time:
         out.append(("xarray-ds", {"time_coord": False}))
     if single_stream:
-        out += [("numpy-array", {}), ("qcconfig", {})]
+        out += [("numpy-array", {}), ("numpy-array", {"masked_input": True}), ("qcconfig", {})]
     return out
 
 
